@@ -116,10 +116,16 @@ package tree
 //@   allocates map[string]*Node, bitset.BitSet, []*Node, []string, iface
 //@   assigns t.tipIndex, Node.tipid, Node.depth, Edge.bitset, Edge.hashcodeleft, Edge.hashcoderight, Edge.ntaxleft, Edge.ntaxright
 
+// CompareTipIndexes (properties C08, C10): accepted exactly when both name indexes are non-empty, of equal size,
+// and every name of the first is a name of the second (with equal sizes: the same name sets)
 //@ func (*tree.Tree).CompareTipIndexes
 //@   requires t != nil && t2 != nil
 //@   allocates iface, []*Node
 //@   assigns nothing
+//@   ensures [accepted_only_with_equal_sizes_and_every_name_shared] result == nil ==> len(t.tipIndex) != 0 && len(t.tipIndex) == len(t2.tipIndex) && (forall s string :: {has(t.tipIndex, s)} has(t.tipIndex, s) ==> has(t2.tipIndex, s))
+//@   ensures [rejected_only_for_a_size_or_name_mismatch] result != nil ==> len(t.tipIndex) == 0 || len(t2.tipIndex) == 0 || len(t.tipIndex) != len(t2.tipIndex) || (exists s string :: has(t.tipIndex, s) && !has(t2.tipIndex, s))
+//@   loop 1
+//@     invariant [every_name_seen_so_far_is_shared] forall s string :: {visited(1, s)} visited(1, s) ==> has(t2.tipIndex, s)
 
 //@ func (*tree.EdgeIndex).Value
 //@   requires em != nil && e != nil
@@ -172,6 +178,9 @@ package tree
 //@   recv compTrees [message_is_a_tree_or_an_error] msg.Err == nil ==> msg.Tree != nil
 //@   ensures [done_on_every_path] ghost(wg_done) == old(ghost(wg_done)) + 1
 //@   call (*tree.EdgeIndex).Value [only_after_successful_taxon_check] inerr == nil
+//@   call (*tree.EdgeIndex).Value@L3 [compared_branches_are_looked_up_in_the_reference_index] a0 == refIndex && a1 == compEdge
+//@   call (*tree.EdgeIndex).Value@L4 [reference_branches_are_looked_up_in_the_index_of_the_compared_tree] a0 == compIndex && a1 == refEdge
+//@   call (*tree.EdgeIndex).PutEdgeValue [the_compared_tree_is_indexed_in_its_own_fresh_index_with_its_lengths] a0 == compIndex && a1 == e && a3 == e.length && fresh(compIndex)
 //@   send stats [error_of_the_input_tree_reaches_the_caller] treeV.Err != nil ==> msg.Err != nil
 //@   send stats [record_carries_the_tree_identifier] msg.Id == treeV.Id
 //@   send stats [identical_implies_no_specific_branch] msg.Err == nil && msg.Sametree ==> len(msg.Tree1) == 0 && len(msg.Tree2) == 0
